@@ -123,6 +123,17 @@ def r3_handlers(ck, cx):
             st = U(single) if single is not None else None
             ck.ob('R3', f.qn, 'single argument is context.single', st in CONTEXT_SINGLE, detail='single-arg %s' % st,
                   loc=cx.floc(f, rp.pip_node), message='%s passes single=%s to the framer' % (fe[0], st))
+            # the hosted set is read for THIS chunk: in a receive loop the slaves() call lies inside the iteration that hands the chunk to
+            # the framer (a unit added to the context while the server runs is hosted from then on: execute() resolves it)
+            evs = rp.path.ev
+            ip = next((i_ for i_, e_ in enumerate(evs) if e_.kind == 'call' and e_.node is rp.pip_node), None)
+            if ip is not None:
+                loops_ = [i_ for i_, e_ in enumerate(evs[:ip]) if e_.kind == 'loop' and e_.a in ('enter', 'backedge') and e_.frame.fid == 0]
+                sl = [i_ for i_, e_ in enumerate(evs[:ip]) if e_.kind == 'call' and callee_name(e_.node) == 'slaves']
+                if loops_ and sl:
+                    ck.ob('R3', f.qn, 'context.slaves() is read inside the receive-loop iteration', sl[-1] > loops_[-1], detail='units-read-before-loop', loc=cx.floc(f, evs[sl[-1]].node),
+                          message='%s reads context.slaves() once, before its receive loop: the framer filters every later chunk by the set of units hosted when serving started, '
+                                  'so a request for a unit added since is dropped although execute() would resolve it' % fe[0])
             cb = rp.pip.get('callback')
             cbt = U(cb) if cb is not None else ''
             ck.ob('R3', f.qn, 'callback is this handler\'s execute', ('self.' + fe[2]) in cbt, detail='callback %s' % cbt[:40],
